@@ -325,7 +325,7 @@ def run_cases(flavour, cases, name, per_case_timeout=60, workers=None, extra_env
             os.makedirs(os.path.join(workdir, dn), exist_ok=True)
         for fn, content in c.files.items():
             path = os.path.join(workdir, fn)
-            with open(path, 'w') as f:
+            with open(path, 'wb' if isinstance(content, bytes) else 'w') as f:
                 f.write(content)
     shards = [[] for _ in range(workers)]
     for i, c in enumerate(cases):
